@@ -261,6 +261,19 @@ _W10_GUARDS = {
     "C19": {"endpoints-disabled-on-the-server": 80},
     "C20": {"client-side-device-flows": 100},
 }
-for _gs in (_W9_GUARDS, _W10_GUARDS):
+# ... and with the eleventh wave (rarely used API surface, DESIGN.md 12.18)
+_W11_GUARDS = {
+    "C02": {"rp-key-set-with-skip-remote-check": 50},
+    "C03": {"providers-built-with-the-public-constructors": 1000},
+    "C04": {"challenge-without-a-method": 1200, "authentication-requests-by-post": 3000},
+    "C08": {"userinfo-token-by-post-form": 400, "userinfo-token-by-query": 400},
+    "C09": {"device-poll-with-the-peer's-interval": 300},
+    "C11": {"response-type-in-the-other-order": 400, "authentication-requests-by-post": 1200},
+    "C17": {"cookie-handler-with-a-domain": 150},
+    "C18": {"post-logout-loopback-variations": 80},
+    "C19": {"providers-built-with-the-public-constructors": 100},
+    "C20": {"providers-from-one-shared-config": 100},
+}
+for _gs in (_W9_GUARDS, _W10_GUARDS, _W11_GUARDS):
     for _p, _g in _gs.items():
         PROPS[_p]["min_probes"]["quick"].update(_g)
